@@ -133,6 +133,11 @@ func uniform(t *rapid.T, label string, n int) int {
 
 // newConnRaw is newConn without the panic guard (callers guard themselves).
 func newConnRaw(tr net.Conn, keys []*hello.Key) (*ech.Conn, error) {
+	if len(keys) >= 2 {
+		// WithKeys appends: a key list may arrive in several options
+		all := echKeys(keys...)
+		return ech.NewConn(context.Background(), tr, ech.WithKeys(all[:1]), ech.WithKeys(all[1:]))
+	}
 	if keys != nil {
 		return ech.NewConn(context.Background(), tr, ech.WithKeys(echKeys(keys...)))
 	}
